@@ -103,14 +103,15 @@ Section CommitInv.
 
   Section Step.
     Variables (n : nat) (σ : sys) (G : list lrec) (A : list ack) (CL : list cand) (GR : list grant).
-    Variables (i : nid) (s : node) (ev : event) (k : N) (crashed : bool) (st : N) (s' : node).
+    Variables (i : nid) (s : node) (ev : event) (k : N) (s' : node).
     Hypothesis Hlen : length (sy_nodes σ) = n.
     Hypothesis CI : cminv σ G A CL GR.
     Hypothesis Gs : get_node i (sy_nodes σ) = Some s.
     Hypothesis Hdel : forall m, ev = EDeliver m -> In m (sy_soup σ) /\ m_to m <> 0.
-    Hypothesis Hev : evok2 n ev.
     Hypothesis Hres : evres bm be ev.
-    Hypothesis Hrun : run_event_crash (settle s) ev k = Ret (crashed, st, s').
+    Hypothesis NS : nstep s ev k s'.
+    Hypothesis El0 : Election.inv (map n_id (sy_nodes σ)) (step_sys σ s').
+    Hypothesis I20 : inv2 n (step_sys σ s').
 
     Let σ' := step_sys σ s'.
     Let G' := G ++ rec_of s s'.
@@ -126,12 +127,12 @@ Section CommitInv.
     Let WI := c_w _ _ _ _ _ CI.
     Let KI := w_k _ _ _ _ _ _ _ WI.
     Let GI := k_g _ _ _ _ _ KI.
-    Let WI' : voteinv bm be σ' G' A' CL' GR' := voteinv_step_rec bm be n σ G A CL GR i s ev k crashed st s' Hlen WI Gs Hdel Hev Hres Hrun.
+    Let WI' : voteinv bm be σ' G' A' CL' GR' := voteinv_step_abs bm be n σ G A CL GR i s ev k s' Hlen WI Gs Hdel Hres NS El0 I20.
     Let KI' := w_k _ _ _ _ _ _ _ WI'.
     Let GI' := k_g _ _ _ _ _ KI'.
-    Let NI := st_NI bm be n σ G A i s ev k crashed st s' KI Gs Hdel Hev Hres Hrun.
-    Let Hi : n_id s' = i := st_id σ i s ev k crashed st s' Gs Hrun.
-    Let Gs' : get_node i (sy_nodes σ') = Some s' := st_Gs' σ i s ev k crashed st s' Gs Hrun.
+    Let NI := st_NI s ev k s' NS.
+    Let Hi : n_id s' = i := st_id σ i s ev k s' Gs NS.
+    Let Gs' : get_node i (sy_nodes σ') = Some s' := st_Gs' σ i s ev k s' Gs NS.
 
     Lemma cs_q : quorum_of (map n_id (sy_nodes σ')) = quorum_of (map n_id (sy_nodes σ)).
     Proof. unfold quorum_of. simpl. rewrite put_node_ids. reflexivity. Qed.
@@ -231,19 +232,20 @@ Section CommitInv.
       destruct (c_node _ _ _ _ _ CI i s Gs) as [Hcl Hcp]. fold c0 in Hcl, Hcp. fold L0 in Hcl, Hcp.
       pose proof cs_no_trunc as Hnt. pose proof cs_term_le as Hle.
       destruct (v_ext _ _ _ _ _ _ _ _ _ NI) as [E1 [_ [E3 E4]]].
-      destruct E3 as [[X | X] | [X | X]].
-      - (* unchanged *)
+      destruct E3 as [X | [X | X]].
+      - (* not increased: unchanged, or reset by a restart *)
         change (n_commit (with_budget (settle s) k)) with (n_commit s) in X.
-        assert (Ec : c' = c0) by (unfold c', c0; rewrite X; reflexivity). rewrite Ec. split.
+        assert (Ec : (c' <= c0)%nat) by (unfold c', c0; lia). split.
         + assert (Y : length (firstn c0 L') = length (firstn c0 L0)) by (rewrite Hnt; reflexivity).
           rewrite !firstn_length in Y. lia.
-        + destruct Hcp as [Z | [T [P [Cm [HT Hp]]]]]; [left; exact Z | right]. exists T, P.
-          split; [eapply committed_mono; eauto using cs_q, cs_inclG, cs_inclA|]. split; [lia|]. rewrite Hnt. exact Hp.
-      - (* restarted *)
-        assert (Ec : c' = 0%nat) by (unfold c'; rewrite X; reflexivity). rewrite Ec. split; [lia | left; reflexivity].
+        + destruct (Nat.eq_dec c' 0) as [Z | Hnz]; [left; exact Z|].
+          destruct Hcp as [Z | [T [P [Cm [HT Hp]]]]]; [lia | right]. exists T, P.
+          split; [eapply committed_mono; eauto using cs_q, cs_inclG, cs_inclA|]. split; [lia|].
+          eapply pfx_trans; [| exact Hp]. rewrite <- Hnt.
+          replace (firstn c' L') with (firstn c' (firstn c0 L')) by (rewrite firstn_firstn; f_equal; lia). apply firstn_pfx.
       - (* a follower commits up to min(acknowledged index, leaderCommit) *)
         destruct X as [cm [idx [h [m0 [D1 [D2 [D3 [D4 D5]]]]]]]].
-        destruct (st_resp bm be n σ G A i s ev k crashed st s' Hlen KI Gs Hdel Hev Hres Hrun m0 idx h D3 D4) as [Hil Hir].
+        destruct (st_resp bm be n σ G A i s ev k s' Hlen KI Gs Hdel Hres NS El0 I20 m0 idx h D3 D4) as [Hil Hir].
         fold L' in Hil, Hir. split; [unfold c'; lia|].
         destruct (Nat.eq_dec c' 0) as [Z | Hnz]; [left; exact Z | right].
         destruct Hir as [Z | [j [l [Rl Fl]]]]; [unfold c' in Hnz; lia|]. fold T' in Rl.
@@ -251,7 +253,7 @@ Section CommitInv.
         destruct (Hdel md eq_refl) as [Min _].
         destruct (c_msg _ _ _ _ _ CI md _ _ _ _ Min Ebd) as [j2 [l2 [R2 [Hl2 Cp2]]]].
         assert (Htm : m_term md = T').
-        { destruct (deliver_term _ _ _ _ _ _ Hrun) as [D | D]; [rewrite D in D3; contradiction | unfold T'; congruence]. }
+        { destruct (ns_term _ _ _ _ NS md eq_refl) as [D | D]; [rewrite D in D3; contradiction | unfold T'; congruence]. }
         rewrite Htm in R2, Cp2.
         destruct Cp2 as [Z | [T [P [Cm [HT Hp]]]]]; [unfold c' in Hnz; lia|].
         exists T, P. split; [eapply committed_mono; eauto using cs_q, cs_inclG, cs_inclA|]. split; [exact HT|].
@@ -289,7 +291,7 @@ Section CommitInv.
     Qed.
 
     Lemma cs_Go j : j <> i -> get_node j (sy_nodes σ') = get_node j (sy_nodes σ).
-    Proof. apply (st_Go σ i s ev k crashed st s' Gs Hrun). Qed.
+    Proof. apply (st_Go σ i s ev k s' Gs NS). Qed.
 
     Lemma cs_Gcase j x : get_node j (sy_nodes σ') = Some x -> (j = i /\ x = s') \/ (j <> i /\ get_node j (sy_nodes σ) = Some x).
     Proof.
@@ -298,9 +300,9 @@ Section CommitInv.
       - rewrite cs_Go in Hx; auto.
     Qed.
 
-    Lemma cminv_step_rec : cminv σ' G' A' CL' GR'.
+    Lemma cminv_step_abs : cminv σ' G' A' CL' GR'.
     Proof.
-      destruct (step_facts _ _ _ _ _ _ Hrun) as [Hid [Hp [Hm He]]]. pose proof cs_node' as [Hn1 Hn2].
+      pose proof (ns_id _ _ _ _ NS) as Hid. pose proof (ns_pext _ _ _ _ NS) as Hp. pose proof (ns_msgs _ _ _ _ NS) as Hm. pose proof (ns_esum _ _ _ _ NS) as He. pose proof cs_node' as [Hn1 Hn2].
       constructor.
       - exact WI'.
       - intros j x Hx. destruct (cs_Gcase j x Hx) as [[_ E] | [Hj E]].
@@ -329,6 +331,17 @@ Section CommitInv.
         + destruct (c_peers _ _ _ _ _ CI j x E Hr p Hp0) as [Z | [P [Z1 Z2]]]; [left; exact Z | right]. exists P. split; [apply cs_inclA; exact Z1 | exact Z2].
     Qed.
   End Step.
+
+  Lemma cminv_step_rec n σ G A CL GR i s ev k crashed st s' :
+    length (sy_nodes σ) = n -> cminv σ G A CL GR -> get_node i (sy_nodes σ) = Some s ->
+    (forall m, ev = EDeliver m -> In m (sy_soup σ) /\ m_to m <> 0) -> evok2 n ev -> evres bm be ev ->
+    run_event_crash (settle s) ev k = Ret (crashed, st, s') ->
+    cminv (step_sys σ s') (G ++ rec_of s s') (A ++ acks_of s' ++ rec_acks (rec_of s s')) (CL ++ cl_of s s') (GR ++ gr_of G s s').
+  Proof.
+    intros Hlen CI Gs Hdel Hev Hres Hrun.
+    destruct (abs_of_run bm be n σ G i s ev k crashed st s' Hlen (k_g _ _ _ _ _ (w_k _ _ _ _ _ _ _ (c_w _ _ _ _ _ CI))) Gs Hdel Hev Hres Hrun) as [NS [El0 I20]].
+    apply (cminv_step_abs n σ G A CL GR i s ev k s' Hlen CI Gs Hdel Hres NS El0 I20).
+  Qed.
 
   Lemma cminv_step n σ G A CL GR e σ' :
     length (sy_nodes σ) = n -> cminv σ G A CL GR -> lstep n bm be σ e σ' ->
@@ -402,7 +415,7 @@ Lemma appl_step bm be n σ G A CL GR e σ' :
 Proof.
   intros CI AO [Hst Hres]. destruct Hst as [σ i s ev k crashed st s' Gs Hdel Hev Hrun]. simpl in Hres.
   pose proof (k_g _ _ _ _ _ (w_k _ _ _ _ _ _ _ (c_w _ _ _ _ _ _ _ CI))) as GI.
-  assert (Hi : n_id s' = i) by (apply (st_id σ i s ev k crashed st s' Gs Hrun)).
+  assert (Hi : n_id s' = i) by (destruct (step_facts _ _ _ _ _ _ Hrun) as [Hid' _]; destruct (get_node_in _ _ _ Gs) as [_ Gid']; congruence).
   intros j x0 Hx. simpl in Hx. destruct (N.eq_dec j i) as [E | E].
   - subst j. rewrite <- Hi in Hx. rewrite (get_put_same s' (sy_nodes σ) s) in Hx by (rewrite Hi; exact Gs). inversion Hx. subst x0.
     intros x Hin. split.
@@ -492,10 +505,11 @@ Proof.
   pose proof (in_get_node _ _ (i_nodup _ _ (g_el _ _ _ _ GI)) Ha) as Ga.
   pose proof (in_get_node _ _ (i_nodup _ _ (g_el _ _ _ _ GI')) Ha') as Ga'.
   destruct Hst as [Hst Hres]. destruct Hst as [σ i s ev k crashed st s' Gs Hdel Hev Hrun]. simpl in *.
-  assert (Hi : n_id s' = i) by (apply (st_id σ i s ev k crashed st s' Gs Hrun)).
+  assert (Hi : n_id s' = i) by (destruct (step_facts _ _ _ _ _ _ Hrun) as [Hid' _]; destruct (get_node_in _ _ _ Gs) as [_ Gid']; congruence).
   destruct (N.eq_dec (n_id a) i) as [E | E].
   - rewrite E in Ga. rewrite Gs in Ga. inversion Ga. subst a.
     rewrite Hid, E, <- Hi in Ga'. rewrite (get_put_same s' (sy_nodes σ) s) in Ga' by (rewrite Hi; exact Gs). inversion Ga'. subst a'.
-    apply (cs_no_trunc bm be _ σ G A CL GR i s ev k crashed st s' Hn CI Gs Hdel Hev Hres Hrun).
+    destruct (abs_of_run bm be _ σ G i s ev k crashed st s' Hn GI Gs Hdel Hev Hres Hrun) as [NS [El0 I20]].
+    eapply (cs_no_trunc bm be); eauto.
   - rewrite Hid in Ga'. rewrite get_put_other in Ga' by congruence. rewrite Ga in Ga'. inversion Ga'. reflexivity.
 Qed.
